@@ -27,6 +27,7 @@ import Noodles.Vcf.DriverC09Header
 import Noodles.Vcf.DriverC09LazyAny
 import Noodles.Sam.DriverC06
 import Noodles.Sam.DriverC06File
+import Noodles.Sam.DriverC06Lazy
 import Noodles.Util.DriverC20
 import Noodles.Util.DriverC20More
 import Noodles.Io.DriverC12
@@ -55,7 +56,7 @@ def dispatch (line : String) : String :=
   | "c05" :: rest => Bam.Driver.handle rest
   | "c14" :: rest => (WP.Once.Driver.handle? rest <|> WP.Driver.handle? rest).getD (Bgzf.SM.handleC14 rest)
   | "c09" :: rest => ((Vcf.DriverHeader.handle? rest).orElse fun _ => Vcf.DriverLazyAny.handle? rest).getD (Vcf.Driver.handle rest)
-  | "c06" :: rest => (Sam.File.Drv.handle? rest).getD (Sam.Drv.handleC06 rest)
+  | "c06" :: rest => (Sam.LazyFile.Drv.handle? rest <|> Sam.File.Drv.handle? rest).getD (Sam.Drv.handleC06 rest)
   | "c20" :: rest => (Util.DriverMore.handle? rest).getD (Util.handleC20 rest)
   | "c12" :: rest => IO.handleC12All rest
   | "c16" :: rest => Bgzf.Async.handleC16 rest
